@@ -124,7 +124,7 @@ def gen_scenario(r):
     return {"steps": out, "src": "gen-" + profile}
 
 
-def flood_scenarios(seed_):
+def flood_scenarios(seed_, variants=("resume", "fail")):
     """Floods that cross the implementation's own queue capacity (the harness reads cap(sub.ch) and publishes cap+extra
     VAAs): a subscriber stops reading, cap+extra VAAs that match it are published (a few of them also match the
     subscribers that keep reading), then: everything the readers are owed arrives, a new subscription and a removal
@@ -132,7 +132,7 @@ def flood_scenarios(seed_):
     its connection breaks."""
     r = random.Random("spy-flood-%d" % seed_)
     res = []
-    for variant in ("resume", "fail"):
+    for variant in variants:
         a, b = r.sample([{"c": c, "a": x} for c in CHAINS for x in ADDRS], 2)
         f1 = [] if variant == "resume" else [a]
         steps = [{"ev": "Subscribe", "a": {"s": "s1", "f": f1}}, {"ev": "Subscribe", "a": {"s": "s2", "f": [b]}},
